@@ -375,18 +375,20 @@ def rule_time_split(ctx: Ctx):
 
 
 def _not_expired(d):
-    """A timeout decision taken in the direction 'not expired' (for >=-like tests: outcome False)."""
-    op = d.test[1]
-    if op in ("GtE", "Gt"):
-        # new >= ref + t  (new on the left?)  -- orientation is checked by CMP-1; here only polarity
-        return _new_on_left(d.test) != d.outcome
-    if op in ("Lt", "LtE"):
-        return _new_on_left(d.test) == d.outcome
-    return True
+    """A timeout decision taken in the direction 'not expired'.
 
-
-def _new_on_left(test):
-    return any(x[0] == "ucall" and x[1] == "time_mapper" for x in subterms(test[2]))
+    The relation that holds on the path (test with its outcome) is normalised to  sum(coeffs) + c  op  0.
+    'expired' is  new - reference - timeout >= 0, i.e. the timeout parameter has a negative coefficient
+    under >= / > (or a positive one under <= / <)."""
+    nf = normalise_cmp(d.test, d.outcome)
+    if nf is None:
+        return True
+    op, co, c = nf
+    ct = [v for k, v in co if k[0] == "param" and k[1] in ("active_timeout", "inactive_timeout")]
+    if not ct:
+        return True
+    expired = (ct[0] < 0 and op in ("GtE", "Gt")) or (ct[0] > 0 and op in ("LtE", "Lt"))
+    return not expired
 
 
 def _check_expiry_form(nf, new, tparam, ref, first):
@@ -539,6 +541,18 @@ def rule_roll(ctx: Ctx):
             flushed = [m for m in mux_emissions(p, roles=("down",)) if m.event is not None and m.event.keyclass[0] == "CHILD"]
             for m in flushed:
                 idx = m.event.keyclass[1]
+                shape = _flush_start_shape(idx)
+                if shape is not None:
+                    kind_, detail = shape
+                    if kind_ == "unknown":
+                        raise AnalysisError("DP-3: the expression that selects the first slot to flush (%s) is not a recognised ceiling/floor "
+                                            "division of the item counter by stride; cannot decide the flush order" % detail)
+                    r3.ob(kind_ == "ceil", lambda m=m, detail=detail: mk_finding(
+                        "DP-3", spec, kind, cfg, p,
+                        "partial windows must be closed starting at slot ceil(counter / stride) %% density (the slot after the newest window, i.e. the "
+                        "oldest one); the flush starts at %s, which is the newest window's slot whenever the counter is not a multiple of stride" % detail,
+                        node=m.eff.node, extra="flush-start"))
+                    continue
                 dep_n = any(x[0] == "store" and x[1] == "get_state" and x[2][1] == "state_n" for x in subterms(idx))
                 # ... or the order derives from an ordering of the stored start indices
                 dep_sorted = any(e.k == "loopiter" and e.iter is not None and any(
@@ -621,6 +635,59 @@ def rule_roll(ctx: Ctx):
     for r in (r1, r2, r3):
         r.require_instances(1)
     return [r1, r2, r3]
+
+
+def _flush_start_shape(idx):
+    """For idx = key[0]*D + (first + t) % D with first depending on the counter n:
+    ('ceil'|'floor'|'unknown', text).  None if idx has another form (handled by the dependence test)."""
+    li = linear_index(idx)
+    if li is None or li[0] != "scaled":
+        return None
+    D, rest = li[1], li[2]
+    if not (rest[0] == "binop" and rest[1] == "Mod" and rest[3] == D):
+        return None
+    inner = rest[2]
+    if not (inner[0] == "binop" and inner[1] == "Add"):
+        return None
+    first = None
+    for a, b in ((inner[2], inner[3]), (inner[3], inner[2])):
+        if b[0] == "loopvar":
+            first = a
+    if first is None:
+        return None
+    reads = [x for x in subterms(first) if x[0] == "store" and x[1] == "get_state" and x[2][1] == "state_n"]
+    if not reads:
+        return None
+    n = reads[0]
+
+    def is_stride(t):
+        return t[0] == "param" and t[1] == "stride"
+    # -(-n // s)
+    if first[0] == "unop" and first[1] == "USub" and first[2][0] == "binop" and first[2][1] == "FloorDiv" and is_stride(first[2][3]):
+        num = first[2][2]
+        if num == ("unop", "USub", n):
+            return ("ceil", show(first))
+    if first[0] == "binop" and first[1] == "FloorDiv" and is_stride(first[3]):
+        f = linform(first[2])
+        if f is not None:
+            co = dict(f[0])
+            if co == {n: 1} and f[1] == 0:
+                return ("floor", show(first))
+            st = [k for k in co if is_stride(k)]
+            if set(co) == {n} | set(st) and co[n] == 1 and len(st) == 1 and co[st[0]] == 1 and f[1] == -1:
+                return ("ceil", show(first))
+    # (n - 1) // s + 1
+    if first[0] == "binop" and first[1] == "Add":
+        for a, b in ((first[2], first[3]), (first[3], first[2])):
+            if b == ("const", 1) and a[0] == "binop" and a[1] == "FloorDiv" and is_stride(a[3]):
+                f = linform(a[2])
+                if f is not None and dict(f[0]) == {n: 1} and f[1] == -1:
+                    return ("ceil", show(first))
+    if first[0] == "call" and first[1] == ("glob", "math.ceil") and len(first[2]) == 1:
+        q = first[2][0]
+        if q[0] == "binop" and q[1] == "Div" and q[2] == n and is_stride(q[3]):
+            return ("ceil", show(first))
+    return ("unknown", show(first))
 
 
 def _is_multiple_test(test, outcome, n, opened):
